@@ -448,6 +448,16 @@ def rule_renames(ctx):
         # written another way (a local alias of the dataset, a helper ...): what the dataset and every variable see afterwards is read off the interpreted scenarios
         from ..scenario_rule import rule_scenarios
         rule_scenarios(ctx, 'R6', only=DS + 'set_axis', title='set_axis modifies the shared Axis object (interpreted scenarios)')
+    # rename_axes / rename_keys: the structural readings (which know the fetch-all-first comprehension idiom) on trial; when they do not recognise how the pairs are
+    # collected, the scenario tables of the two functions decide (swaps, chains, occupied names / keys, callables, inplace=False on the copy)
+    from ..report import on_trial
+    on_trial(ctx, _rename_axes_structural, [DS + 'rename_axes'], ('R6',), 'rename_axes')
+    # ds[k].dims = (...) through a variable goes through AbstractHasAxes._set_dims
+    rule_rename_loop(ctx, 'R6', ctx.fn('dimarray.core.bases.AbstractHasAxes._set_dims'), '_set_dims (dims setter of arrays)')
+    on_trial(ctx, _rename_keys_structural, [DS + 'rename_keys'], ('R6',), 'rename_keys')
+
+
+def _rename_axes_structural(ctx):
     fi = ctx.fn(DS + 'rename_axes')
     ev = run(ctx, fi, bind={'inplace': T.CONST_TRUE}, mode='join')
     ok = False
@@ -472,8 +482,9 @@ def rule_renames(ctx):
         ctx.holds('R6', 'rename_axes: all Axis objects fetched from ds.axes first, then renamed')
     else:
         ctx.violated('R6', fi, 'rename_axes', 'rename_axes must write the new name into the shared Axis objects held in ds.axes')
-    # ds[k].dims = (...) through a variable goes through AbstractHasAxes._set_dims
-    rule_rename_loop(ctx, 'R6', ctx.fn('dimarray.core.bases.AbstractHasAxes._set_dims'), '_set_dims (dims setter of arrays)')
+
+
+def _rename_keys_structural(ctx):
     fi = ctx.fn(DS + 'rename_keys')
     ev = run(ctx, fi, bind={'inplace': T.CONST_TRUE}, mode='join')
     ok = False
